@@ -111,7 +111,7 @@ func vOnChangeConfig(n int) {
 	vReach("end")
 }
 
-//verif:check C08 stubs=env,valuefile,abslog reach=config-appended,end desc="leader.init with pending actions in the latest configuration: configuration entries appended while becoming leader obey the same rules" bounds="n<=3 nodes, symbolic voter flags and actions, log of 2 entries"
+//verif:check C08,C09 stubs=env,valuefile,abslog reach=config-appended,repl-view,end desc="leader.init with pending actions in the latest configuration: configuration entries appended while becoming leader obey the same rules; every replication task is started with a non-nil view beginning at the log's current first index, whatever compaction happened while this node was not leader and whatever removeLTE a previous leadership left in the reused leader struct" bounds="n<=3 nodes, symbolic voter flags and actions, log of 2 entries after a symbolic base, any stale removeLTE"
 func VH_C08_leader_init() {
 	n := 1 + vChoice(3)
 	nid := uint64(1 + vChoice(n))
@@ -119,7 +119,6 @@ func VH_C08_leader_init() {
 	vSymTermState(r)
 	vAssume(r.term >= 1 && r.votedFor == nid)
 	a := vInitLog(r, 2, 1)
-	_ = a
 	r.state, r.leader = Leader, nid
 	r.fsm.FSM = &vFSM{}
 	cfg := vMkConfig("cfg", n, vU64("cfg.index"), 1)
@@ -137,9 +136,23 @@ func VH_C08_leader_init() {
 		vAssume(r.configs.Committed.Index < cfg.Index && cfg.Index > r.commitIndex)
 	}
 	l := r.ldr
+	// the leader struct is reused across terms of one process: whatever removeLTE a previous leadership left behind
+	l.removeLTE = vU64("stale.removeLTE")
+	first := a.prevIndex()
 	vWatchConfigAppends(r, l)
 	l.init()
 	vCheckConfigAppends("G2-init", true)
+	// C09: every replication task starts with a readable view of the log as compacted so far (by this node as
+	// follower, by an installed snapshot, or before a restart), not one derived from a previous leadership
+	vAssert(l.removeLTE == first, "R1-leader-starts-from-the-log's-first-index")
+	for _, repl := range l.repls {
+		vAssert(repl.log != nil, "R1-replication-has-a-log-view")
+		if repl.log != nil {
+			vAssert(repl.log.PrevIndex() == first, "R1-replication-view-starts-at-the-log's-first-index")
+			vAssert(repl.status.removeLTE == first, "R1-replication-removeLTE-is-current")
+			vReach("repl-view")
+		}
+	}
 	vReach("end")
 }
 
